@@ -587,6 +587,11 @@ impl Scenario for C16 {
         };
         let n = world.net.lock().unwrap();
         match (&md.want, &result) {
+            (Want::Connected, Ok(())) => rep.count("c16.want.connected", 1),
+            (Want::Err(allowed), Err(_)) => rep.count(&format!("c16.want.{}", allowed[0].split('(').next().unwrap_or("")), 1),
+            _ => {}
+        }
+        match (&md.want, &result) {
             (Want::Connected, Ok(())) => {
                 if sprops.as_ref() != Some(&server_props()) {
                     rep.violate("server-properties", "differ", format!("server_properties() = {:?}", sprops));
